@@ -23,6 +23,7 @@ import (
 
 	esql "github.com/bmeg/grip/existing-sql"
 	"github.com/bmeg/grip/gdbi"
+	"github.com/bmeg/grip/gripql"
 	"github.com/bmeg/grip/psql"
 	"github.com/jmoiron/sqlx"
 )
@@ -371,10 +372,31 @@ func c20Schema() []*esql.Schema {
 	}}
 }
 
+// c20PlainName: letters, digits, '_' and '-' only.
+func c20PlainName(s string) bool {
+	for _, c := range s {
+		if !(c >= 'a' && c <= 'z' || c >= 'A' && c <= 'Z' || c >= '0' && c <= '9' || c == '_' || c == '-') {
+			return false
+		}
+	}
+	return true
+}
+
+// c20GraphRow emulates the `graphs` registry table.  Its RAW column graph_name holds what the client
+// called the graph — for a name AddGraph accepts (gripql.ValidateGraphName; letters, digits, '_', '-')
+// that is the client's string, which thus comes BACK through the database to every statement that
+// uses the column.  The derived columns (sanitized name, table names) are server-side identifiers:
+// the property's comparison keeps them equal for the two calls (props/C20.json, assumptions), so
+// they stay those of graph "g".  For any other string (the lookup statement itself is then already
+// an injection: listed findings) the row of "g" answers.
 func c20GraphRow(a c20Args) []c20Canned {
+	raw := "g"
+	if name := a.P["graph"]; name != "" && gripql.ValidateGraphName(name) == nil && c20PlainName(name) {
+		raw = name
+	}
 	return []c20Canned{{Prefix: "SELECT * FROM graphs where graph_name=",
 		Cols: []string{"graph_name", "sanitized_graph_name", "vertex_table", "edge_table"},
-		Rows: [][]driver.Value{{"g", "g", c20V, c20E}}}}
+		Rows: [][]driver.Value{{raw, "g", c20V, c20E}}}}
 }
 
 func c20Calls() []c20Call {
